@@ -253,7 +253,7 @@ func init() {
 	vx.Register(&vx.Prop{
 		ID:    "C13",
 		Level: "model_checking",
-		Rule: "slot machine model (16 local types, each undefined or holding one of 5 definition variants: record little-endian, record big-endian with other fields/sizes/order, device_info, an unknown message, record with an empty field list) explored two ways on the real decoder: (1) all words of length <=4 (quick) / <=5 (thorough) over {data(l), compressed data(l<=3), define(l,v)} for locals {0,1,3,4,15}, x 4 ways of writing the file_id record (local 0 / local 2, normal / compressed header); (2) breadth-first search over all reachable model slot states with a shortest witness each, every one-step extension followed by a probe of every defined slot (and one undefined slot), replayed on a fresh decoder; plus all 16 locals x variants at depth 2. " +
+		Rule: "slot machine model (16 local types, each undefined or holding one of 5 definition variants: record little-endian, record big-endian with other fields/sizes/order, device_info, an unknown message, record with an empty field list) explored two ways on the real decoder: (1) all words of length <=4 (quick) / <=5 (thorough) over {data(l), compressed data(l<=3), define(l,v)} for locals {0,1,3,4,15}, x 4 ways of writing the file_id record (local 0 / local 2, normal / compressed header); (2) breadth-first search over all reachable model slot states with a shortest witness each, every one-step extension followed by a probe of every defined slot (and one undefined slot), replayed on a fresh decoder; plus all 16 locals x variants at depth 2, plus long runs (one slot stays defined while other slots are redefined 20-3000 times with 2-255 fields). " +
 			"Oracle: each data record decodes under the latest definition of its slot (values via the C02 model), other slots unaffected, undefined slot => error with the earlier records kept. states/transitions = model states and extensions; traces = streams decoded",
 		Assumptions: []string{"streams carry no timestamp fields, so compressed headers do not alter content (timestamps are C12's subject)"},
 		Run:         runC13,
@@ -421,6 +421,59 @@ func runC13(w *vx.W) {
 					if msg != "" {
 						report(0, word, stream, msg)
 					}
+				}
+			}
+		}
+	}
+	// (4) long runs: one slot stays defined while other slots are redefined many times with large and small
+	// definitions (storage reused across definitions must not disturb a live slot)
+	for ci, cfg := range [][2]int{{20, 255}, {40, 255}, {600, 10}, {3000, 2}, {70, 60}} {
+		if !w.Mine(int64(ci)) {
+			continue
+		}
+		for _, live := range []byte{9, 0, 3} {
+			n, nf := cfg[0], cfg[1]
+			recs := [][]byte{fitmodel.FileIdDef(5, false).Bytes(), fitmodel.Data(5, []byte{4})}
+			dLive := c13Def(0, live)
+			pl := c13Payload(dLive, 3)
+			recs = append(recs, dLive.Bytes(), fitmodel.Data(live, pl))
+			_, want, _ := c13Expected(dLive, pl)
+			for i := 0; i < n; i++ {
+				other := byte(1 + i%15)
+				if other == live || other == 5 {
+					other = 14
+				}
+				fs := make([]fitmodel.FieldDef, nf)
+				for j := range fs {
+					fs[j] = fitmodel.FieldDef{Num: byte(j), Size: 1, Base: fitmodel.Uint8}
+				}
+				d := fitmodel.Def{Local: other, Global: 0xFF00 + uint16(i%7), Fields: fs}
+				recs = append(recs, d.Bytes())
+				if i%5 == 0 {
+					recs = append(recs, fitmodel.Data(other, make([]byte, nf)))
+				}
+			}
+			recs = append(recs, fitmodel.Data(live, pl))
+			stream := fitmodel.File(fitmodel.DefaultHeader, recs...)
+			res := safeDecode(bytes.NewReader(stream))
+			w.Eval(1)
+			w.Trace(1)
+			w.Fam("long-redefinition-runs", 1)
+			desc := fmt.Sprintf("slot %d (record, variant A) defined once, then %d redefinitions of other slots with %d fields each, then data on slot %d", live, n, nf, live)
+			rep := c13Replay{Word: desc, Hex: trunc(vx.Hex(stream), 2000)}
+			if res.Err != nil || res.Panic != "" {
+				w.Violation("long-runs", fmt.Sprintf("%s: %v %s", desc, res.Err, res.Panic), rep)
+				continue
+			}
+			got := messagesOf(res.File, 20)
+			if len(got) != 2 {
+				w.Violation("long-runs", fmt.Sprintf("%s: %d record messages, expected 2", desc, len(got)), rep)
+				continue
+			}
+			for i := range got {
+				if d := diffMsg(got[i], want, compIgnore(got[i])); d != "" {
+					w.Violation("long-runs", fmt.Sprintf("%s: record #%d: %s", desc, i, d), rep)
+					break
 				}
 			}
 		}
